@@ -6,6 +6,7 @@
 * every fact added to the solver context is a quantifier-free lemma instance (theory.Facts)
 """
 import ast
+import os
 import fractions
 import time
 
@@ -44,6 +45,15 @@ PURE_METHODS = {"get", "items", "keys", "values", "copy", "count", "value", "is_
 RLIMIT = 3_000_000
 
 
+def _load_loopsigs():
+    import json
+    from .. import VERIF
+    try:
+        return json.load(open(os.path.join(VERIF, "contracts", "loopsigs.json")))
+    except Exception:
+        return {}
+
+
 class Engine:
     def __init__(self, db, contracts, target=None):
         self.db = db
@@ -53,6 +63,8 @@ class Engine:
         self.stats = {"paths": 0, "solver_calls": 0, "solver_time": 0.0, "vacuity": 0}
         self.inlined = set()
         self.used_contracts = set()
+        self.seen_loopsigs = {}
+        self.loopsigs = _load_loopsigs()
 
     # ------------------------------------------------------------------ path machinery
     def reset_path(self, prefix):
@@ -222,6 +234,9 @@ class Engine:
             rec["model"] = self._model_summary(model) if model is not None else None
             rec["smt2"] = self._smt2(z3.Not(goal))
             rec["detail"] = "z3: %s (%s)" % (r, self.solver.reason_unknown() if r == z3.unknown else "counter-model found")
+        if st == "discharged" and os.environ.get("QVC_CROSSCHECK") and not isinstance(goal, bool):
+            # thorough tier: an independent back end (z3 4.8.12 command line) must not contradict the verdict
+            rec["second_backend"] = self._second_opinion(z3.Not(goal))
         if st == "discharged" and ("/post" in kind or ".step" in kind or "/effect" in kind or ".item" in kind):
             # canary / vacuity: the negated goal is refuted, so the goal itself must be satisfiable here
             r2, _ = self._check(goal)
@@ -235,6 +250,20 @@ class Engine:
         if st == "discharged":
             self.assume(goal)
         return st == "discharged"
+
+    def _second_opinion(self, negated_goal):
+        import subprocess
+        import tempfile
+        text = self._smt2(negated_goal)
+        try:
+            with tempfile.NamedTemporaryFile("w", suffix=".smt2", delete=True) as f:
+                f.write(text)
+                f.flush()
+                out = subprocess.run(["/usr/bin/z3", "rlimit=20000000", "-T:60", f.name], capture_output=True, text=True,
+                                     timeout=70).stdout.strip().split("\n")[0]
+        except Exception as e:
+            return "error: %s" % type(e).__name__
+        return "z3-4.8.12: " + (out or "no answer")
 
     def _smt2(self, negated_goal):
         self._sync()
@@ -1075,6 +1104,12 @@ class Engine:
                               (ordinal, fr.closure.qualname() if fr.closure else "?"))
         qn = fr.closure.qualname()
         kindname = "loop%d" % ordinal
+        # the invariant was written for a particular loop: if the header changed, the function leaves reach
+        sig = "for %s in %s" % (ast.unparse(s.target), ast.unparse(s.iter))
+        want = (getattr(self, "loopsigs", None) or {}).get(qn, {}).get(str(ordinal))
+        if want is not None and want != sig:
+            raise Unsupported("loop %d of %s was %r when its invariant was written, now %r" % (ordinal, qn, want, sig))
+        self.seen_loopsigs.setdefault(qn, {})[str(ordinal)] = sig
         names, objnames = self.modified_in(s.body, fr)
         for extra in spec.get("modifies", ()):
             objnames.add(extra)
